@@ -159,6 +159,32 @@ example (E : PS.Env) :
   (server_returns_nil_iff E none _).mpr ⟨Gen.CaProtocolPullChunks, [], PS.goodbyeMsg, [], by simp, by decide, rfl,
     by simp [PS.goodbyeMsg], by simp, by simp⟩
 
+/-- **regenerated obligation** (harness/extract/protofacts.go): every slice expression on a message body in the
+    protocol code is dominated by the length guard the model has before it — `if len(m.Body) < 40 { return … }`
+    before `m.Body[8:40]` in `Serve`, the same before `m.Body[40:]` in `RequestChunk` — and the buffers of
+    `ReadMessage` and of the `Send*` functions are laid out as the model lays them out -/
+theorem gen_proto_guards :
+    Gen.protoServeReqGuardDominates = true ∧ Gen.protoServeReqSliceHi ≤ Gen.protoServeReqGuard ∧
+    Gen.protoServeReqSliceLo = 8 ∧ Gen.protoServeReqSliceHi = 40 ∧ Gen.protoServeReqGuard = 40 ∧
+    Gen.protoClientChunkGuardDominates = true ∧ Gen.protoClientChunkSliceLo ≤ Gen.protoClientChunkGuard ∧
+    Gen.protoClientChunkSliceLo = 40 ∧ Gen.protoClientChunkGuard = 40 ∧ Gen.protoClientChunkSliceOpen = true ∧
+    Gen.protoReadMessage = ["len=ReadUint64()", "if:len<16→return-err", "b=ReadN(len-8)", "typ=Uint64(b[0:8])", "body=b[8:]",
+      "return:Message{Type:typ,Body:body}"] ∧
+    Gen.protoSendHello = ["make:8", "put:b=flags", "Message{Type:CaProtocolHello,Body:b}"] ∧
+    Gen.protoSendProtocolRequest = ["if:!initialized→return-err", "make:40", "put:b[0:8]=flags", "copy:b[8:]=id[:]",
+      "Message{Type:CaProtocolRequest,Body:b}"] ∧
+    Gen.protoSendProtocolChunk = ["if:!initialized→return-err", "make:len(chunk)+40", "put:b[0:8]=flags", "copy:b[8:]=id[:]",
+      "copy:b[40:]=chunk", "Message{Type:CaProtocolChunk,Body:b}"] ∧
+    Gen.protoSendMissing = ["if:!initialized→return-err", "Message{Type:CaProtocolMissing,Body:id[:]}"] ∧
+    Gen.protoSendGoodbye = ["if:!initialized→return-err", "Message{Type:CaProtocolGoodbye,Body:nil}"] ∧
+    Gen.site_proto_ServeReqGuard_found = true ∧ Gen.site_proto_ServeReqSliceLo_found = true ∧
+    Gen.site_proto_ServeReqSliceHi_found = true ∧ Gen.site_proto_ClientChunkGuard_found = true ∧
+    Gen.site_proto_ClientChunkSliceLo_found = true ∧ Gen.site_shape_proto_ReadMessage_found = true ∧
+    Gen.site_shape_proto_SendHello_found = true ∧ Gen.site_shape_proto_SendProtocolRequest_found = true ∧
+    Gen.site_shape_proto_SendProtocolChunk_found = true ∧ Gen.site_shape_proto_SendMissing_found = true ∧
+    Gen.site_shape_proto_SendGoodbye_found = true := by
+  decide
+
 /-! ### callers that do not read payloads to their end (`FormatDecoder.advance`) -/
 
 /-- a walk over any byte string with any reading behaviour of the caller never panics -/
